@@ -199,7 +199,10 @@ def scan_case(c):
 
 
 def grad_case(c):
+  """loss over one module, or (c['two']) over two modules of the same structure, both differentiated"""
   paths = [v['path'] for v in c['vars']]
+  nm = 2 if c.get('two') else 1
+  nv = len(paths)
 
   def ev(vals, e, x):
     k = e[0]
@@ -212,11 +215,12 @@ def grad_case(c):
     a, b = ev(vals, e[1], x), ev(vals, e[2], x)
     return a + b if k == 'add' else a * b
 
-  def loss(m, x):
+  def loss(*args):
+    ms, x = args[:nm], args[nm]
     for i in c['bumps']:
-      v = getvar(m, paths[i])
+      v = getvar(ms[i // nv], paths[i % nv])
       v.value = v.value + 1.0
-    vals = [getvar(m, p).value for p in paths]
+    vals = [getvar(m, p).value for m in ms for p in paths]
     l = ev(vals, c['loss'], x)
     if c['has_aux']:
       return l, vals[0] * 2.0
@@ -224,29 +228,46 @@ def grad_case(c):
   x = jnp.asarray(float(c['x']))
   wrt = dec_filter(c['wrt'])
 
+  def mods(dtype=jnp.float64):
+    out = []
+    for k in range(nm):
+      vs = [dict(v, val=(v['val'] if k == 0 else v['val2'])) for v in c['vars']]
+      out.append(build(vs, dtype=dtype))
+    return out
+
   def impl():
-    m, objs = build(c['vars'], dtype=jnp.float64)
-    argnums = nnx.DiffState(0, wrt) if c['diffstate'] else 0
+    built = mods()
+    ms = [m for m, _ in built]
+    if nm == 1:
+      argnums = nnx.DiffState(0, wrt) if c['diffstate'] else 0
+    else:
+      argnums = tuple(nnx.DiffState(k, wrt) for k in range(nm)) if c['diffstate'] else tuple(range(nm))
     kw = {'has_aux': True} if c['has_aux'] else {}
     if c['value_and_grad']:
-      out, g = nnx.value_and_grad(loss, argnums=argnums, **kw)(m, x)
+      out, g = nnx.value_and_grad(loss, argnums=argnums, **kw)(*ms, x)
       value = float(out[0]) if c['has_aux'] else float(out)
       aux = float(out[1]) if c['has_aux'] else None
     else:
-      g = nnx.grad(loss, argnums=argnums, **kw)(m, x)
+      g = nnx.grad(loss, argnums=argnums, **kw)(*ms, x)
       value, aux = None, None
       if c['has_aux']:
         g, a = g
         aux = float(a)
-    flat = nnx.to_flat_state(g)
-    return {'value': value, 'aux': aux, 'grads': [[list(p), float(np.asarray(s.value))] for p, s in flat],
-            'vals': [float(getvar(m, p).value) for p in paths], 'same_objects': all(getvar(m, p) is o for p, o in zip(paths, objs))}
+    gs = [g] if nm == 1 else list(g)
+    grads = []
+    for k, gk in enumerate(gs):
+      for p, sv in nnx.to_flat_state(gk):
+        grads.append([([k] if nm == 2 else []) + list(p), float(np.asarray(sv.value))])
+    return {'value': value, 'aux': aux, 'grads': grads,
+            'vals': [float(getvar(m, p).value) for m in ms for p in paths], 'same_objects': all(getvar(m, p) is o for (m, objs) in built for p, o in zip(paths, objs))}
 
   def ref():
     # jax.grad of the loss written as a function of the selected Variables' values
-    m, _ = build(c['vars'], dtype=jnp.float64)
-    sel = [i for i, p in enumerate(paths) if nnx.filterlib.to_predicate(wrt)(tuple(p), getvar(m, p))]
-    vals0 = [float(getvar(m, p).value) for p in paths]
+    built = mods()
+    ms = [m for m, _ in built]
+    allp = [(k, p) for k in range(nm) for p in paths]
+    sel = [i for i, (k, p) in enumerate(allp) if nnx.filterlib.to_predicate(wrt)(tuple(p), getvar(ms[k], p))]
+    vals0 = [float(getvar(ms[k], p).value) for k, p in allp]
 
     def pure(sel_vals):
       vals = list(map(jnp.asarray, vals0))
@@ -255,9 +276,9 @@ def grad_case(c):
       vals = [v + 1.0 if i in c['bumps'] else v for i, v in enumerate(vals)]
       return ev(vals, c['loss'], x), vals
     (l, vals), g = jax.value_and_grad(pure, has_aux=True)([jnp.asarray(vals0[i]) for i in sel])
-    order = sorted(range(len(sel)), key=lambda k: tuple(paths[sel[k]]))
+    order = sorted(range(len(sel)), key=lambda j: (allp[sel[j]][0], tuple(allp[sel[j]][1])))
     return {'value': float(l) if c['value_and_grad'] else None, 'aux': float(vals[0] * 2.0) if c['has_aux'] else None,
-            'grads': [[list(paths[sel[k]]), float(g[k])] for k in order], 'vals': [float(v) for v in vals], 'same_objects': True}
+            'grads': [[([allp[sel[j]][0]] if nm == 2 else []) + list(allp[sel[j]][1]), float(g[j])] for j in order], 'vals': [float(v) for v in vals], 'same_objects': True}
   return {'impl': safe(impl), 'eager': safe(ref)}
 
 
